@@ -1332,6 +1332,8 @@ fn c03_docs() -> Vec<(&'static str, &'static str)> {
         // elements whose content the parser hands over as one raw text node are body text like any other
         ("<p>k1</p><noscript>k2</noscript><iframe>k3</iframe><noembed>k4</noembed><noframes>k5</noframes><xmp>k6</xmp><p>k7</p>", "k1k2k3k4k5k6k7"),
         ("<table><tr><td>k1<noscript>k2</noscript></td><td><iframe>k3</iframe></td></tr></table>", "k1k2k3"),
+        // zero-width characters that form a word or a tagged piece of their own are text like any other
+        ("<p>k1 \u{200c} k2<b>x</b>\u{301} <em>\u{200b}</em>k3</p><p>k4 \u{301}</p>", "k1\u{200c}k2x\u{301}\u{200b}k3k4\u{301}"),
         // row groups are rendered in source order, whatever their kind
         ("<table><tfoot><tr><td>k1</td></tr></tfoot><tbody><tr><td>k2</td></tr></tbody></table>", "k1k2"),
         ("<table><tbody><tr><td>k1</td></tr></tbody><thead><tr><th>k2</th></tr></thead></table>", "k1k2"),
